@@ -83,6 +83,7 @@ def run(ctx):
     fcov = ctx.view(c08.COV)
     if fcov is not None:
         c08.inputs_rule(dep(ctx, "C16", "C08"), fcov)
+    c08.bin_rule(dep(ctx, "C16", "C08"))          # a k-mer absent from the table counts 0 (no panic on a missing key)
     # empty input on the mmap path: the mapping has length 0, so no unconditional write may touch it
     from . import c05
     fb, fm = ctx.view(c05.BATCH), ctx.view(c05.MMAP)
